@@ -483,9 +483,10 @@ transfer lands behind an `INT` (`intRun`).  `Sound md hm bot vm recs` is the glo
 innermost live record; the live records are apart (`Desc5`), hold their three words, and returning through each lands at the recorded
 height of its return address with the records below it exactly as the function that pushed it will expect (`WF`); and the machine is
 at the recorded height of its address, with the pending records where the certificate says and the constants of the `INT` run on
-the stack (`Here`), or at a handler entry.  What the verifier cannot establish enters as the per-step side conditions `StepOk`, two
-typing matters: the function value at a CALL has the arity of its call site (`CalleeArity`), and the allocator hands an `INT` a free
-cell (`AllocFresh`: the collector's bookkeeping is intact, which C09 proves of well-typed heap histories). -/
+the stack (`Here`), or at a handler entry; and the heap's bookkeeping is intact (`FreeInv`, kept by every handler of every module:
+Props/C09 `vm_heap_bookkeeping_invariant` — so the allocator hands every `INT` a fresh cell).  What the verifier cannot establish enters
+as the per-step side condition `StepOk`, one typing matter: the function value at a CALL has the arity of its call site
+(`CalleeArity`). -/
 
 /-- **The size of the stack array is an invariant of execution** (any module, any instruction: every stack write of M-VM is in
 bounds or a crash): a `step` from a machine whose stack array has the configured size ends in such a machine. -/
@@ -528,7 +529,7 @@ theorem verified_step_keeps_callers_frames (md : Module) (orc : Oracle) (sm : Su
 /-- **The extents of MK_INIT_ARRAY over executions.**  In a state satisfying the invariant (`Here`), at a MK_INIT_ARRAY the integers
 the top `dims` slots point at ARE the constants the verifier recorded: they are the operands of the `dims` `INT` instructions
 immediately before it (certificate), each of which extended the run of constants on the stack (`int_extends_consts`: `INT` allocates a
-fresh cell — side condition `AllocFresh` — and pushes it, touching no older cell), and control cannot have entered the run from
+fresh cell — the heap's bookkeeping invariant — and pushes it, touching no older cell), and control cannot have entered the run from
 elsewhere (no jump target, return address, function or handler entry lies behind an `INT`). -/
 theorem verified_mk_init_array_extents (md : Module) (sm : Summary) (hm : HMap) (hv : verifyH md = .ok (sm, hm)) (bot : Int)
     (vm : Vm) (recs : List Rec) (hh : Here md hm bot vm recs) (i : Instr) (st : AbsSt)
@@ -555,18 +556,16 @@ theorem mark_pushes_record (md : Module) (vm : Vm) (recs : List Rec) (i : Instr)
     ghostNext md vm recs = { F := vm.sp + 5, pp := vm.pp, fp := vm.fp, ra := i.w0 } :: recs := by
   unfold ghostNext; simp only [hi, hop]
 
-/-- **`verify_sound`, relative to two typing conditions.**  In a verified module, every run of M-VM — calls, returns, raised and
+/-- **`verify_sound`, relative to the arity of function values.**  In a verified module, every run of M-VM — calls, returns, raised and
 re-raised exceptions included — from a state satisfying the global invariant `Sound`, ends in a state that satisfies it again —
 running at an address the verifier reached, with exactly the stack height it recorded there above the parameters of the running
-function, every frame record intact, or at a handler entry —, or the machine stopped (`running = 3`: failed assert / unhandled
-exception) or halted (`running = 0`) — provided each step meets `StepOk` (`RunsG`):
- (1) at a CALL the function value has the arity of its call site (`CalleeArity`, see `callee_arity_suffices`);
- (2) at an `INT` the allocator hands out a free cell (`AllocFresh`; from the heap invariant `Inv` of C09, `alloc_fresh`, which holds
-     along every history of well-typed heap operations: the same typing assumption seen from the collector's side);
- and a RET / RETHROW finds a live record (the run has not returned out of the activation it was started in).
-No longer assumed, now proved of verified modules: that frame words are not overwritten (`verified_step_keeps_frame_records`), and that
-MK_INIT_ARRAY finds the recorded constants (`verified_mk_init_array_extents`).  PARTIAL for (1) and (2) only; both are checked on every
-replayed step (`stepOkB`). -/
+function, every frame record intact, the heap's bookkeeping intact, or at a handler entry —, or the machine stopped (`running = 3`:
+failed assert / unhandled exception) or halted (`running = 0`) — provided each step meets `StepOk` (`RunsG`): at a CALL the function
+value has the arity of its call site (`CalleeArity`, see `callee_arity_suffices`: type soundness), and a RET / RETHROW finds a live
+record (the run has not returned out of the activation it was started in).
+Proved of verified modules, not assumed: frame words are not overwritten (`verified_step_keeps_frame_records`); MK_INIT_ARRAY finds the
+recorded constants (`verified_mk_init_array_extents`); the allocator hands out free cells (C09 `vm_heap_bookkeeping_invariant`, for ANY
+module).  PARTIAL for the arity condition only, which is checked on every replayed step (`stepOkB`). -/
 theorem verify_sound_partial (md : Module) (sm : Summary) (hm : HMap) (hv : verifyH md = .ok (sm, hm)) (bot : Int)
     (n : Nat) (vm vm' : Vm) (recs recs' : List Rec) (hs : Sound md hm bot vm recs) (hr : RunsG md hm n vm recs vm' recs') :
     Sound md hm bot vm' recs' ∨ vm'.running = 3 ∨ vm'.running = 0 :=
@@ -574,16 +573,16 @@ theorem verify_sound_partial (md : Module) (sm : Summary) (hm : HMap) (hv : veri
 
 /-- … in particular from the machine the first `nev_execute` starts on (empty stack, no live record) -/
 theorem verify_sound_from_start_partial (md : Module) (sm : Summary) (hm : HMap) (hv : verifyH md = .ok (sm, hm))
-    (mem stack gcMode : Nat) (n : Nat) (vm' : Vm) (recs' : List Rec)
+    (mem stack gcMode : Nat) (hmem : 1 ≤ mem) (n : Nat) (vm' : Vm) (recs' : List Rec)
     (hr : RunsG md hm n (beginExecute md (Vm.new mem stack gcMode)) [] vm' recs') :
     Sound md hm (-1) vm' recs' ∨ vm'.running = 3 ∨ vm'.running = 0 :=
-  verify_sound_partial md sm hm hv (-1) n _ vm' [] recs' (sound_initial (verifyH_ok md sm hm hv).2 mem stack gcMode) hr
+  verify_sound_partial md sm hm hv (-1) n _ vm' [] recs' (sound_initial (verifyH_ok md sm hm hv).2 mem stack gcMode hmem) hr
 
 /-- one step of it (any instruction) -/
 theorem verify_sound_step_partial (md : Module) (orc : Oracle) (sm : Summary) (hm : HMap) (hv : verifyH md = .ok (sm, hm)) (bot : Int)
     (vm vm' : Vm) (recs : List Rec) (hs : Sound md hm bot vm recs) (hstep : (step md orc).run vm = .ok ((), vm'))
     (hok : StepOk md hm vm recs) : Sound md hm bot vm' (ghostNext md vm recs) ∨ vm'.running = 3 ∨ vm'.running = 0 :=
-  step_sound (verifyH_ok md sm hm hv).2 orc vm vm' recs hs hstep hok
+  Ver.step_sound (verifyH_ok md sm hm hv).2 orc vm vm' recs hs hstep hok
 
 /-- **A call returns to its MARK with exactly its result.**  RET in a verified module, from a state satisfying the global invariant
 with innermost live record `r` (pushed by the MARK executed at stack pointer `sp₀ = r.F − 5`, in a frame with `pp = r.pp`, `fp = r.fp`,
@@ -594,19 +593,19 @@ theorem verified_ret_step (md : Module) (orc : Oracle) (sm : Summary) (hm : HMap
     (vm vm' : Vm) (recs : List Rec) (i : Instr) (hi : md.code[vm.ip]? = some i) (hop : i.op = .RET)
     (hs : Sound md hm bot vm recs) (hstep : (step md orc).run vm = .ok ((), vm')) (hne : recs ≠ []) :
     ∃ r rs, recs = r :: rs ∧ vm'.ip = r.ra ∧ vm'.sp = r.F - 4 ∧ vm'.fp = r.fp ∧ vm'.pp = r.pp ∧ vm'.running = 1 ∧ Sound md hm bot vm' rs := by
-  obtain ⟨hso, hfp, hd, hwf, hcase⟩ := hs
+  obtain ⟨⟨hso, hfp, hd, hwf, hcase⟩, hfree⟩ := hs
   have hrun : vm.running = 1 := by
     rcases hcase with h | h
     · exact h.height.1
     · exact h.1.1
   obtain ⟨h, r, rs, e1, e2, e3, e4, e5, e6, e7⟩ := sound_RET (verifyH_ok md sm hm hv).2 orc vm vm' recs i hi hop hso hfp hd hwf hrun hne hstep
   rw [e2] at h
-  exact ⟨r, rs, e1, e3, e4, e5, e6, e7, h⟩
+  exact ⟨r, rs, e1, e3, e4, e5, e6, e7, h, step_keeps_freeInv md orc vm vm' hfree hstep⟩
 
 /-- **A complete (balanced) call returns behind its MARK with exactly its result.**  Let a verified module's machine satisfy the
 global invariant with live records `recs`, about to execute `MARK ra` at stack pointer `sp₀`.  After the MARK (the live records are
 `r₀ :: recs`, `r₀` = the record it pushed), let the run go on in any way — arguments, nested calls, the CALL itself, the whole callee,
-exceptions caught inside — (`RunsG`: the two typing conditions at every step) to a running state whose live records are again exactly
+exceptions caught inside — (`RunsG`: the arity condition at every CALL) to a running state whose live records are again exactly
 `r₀ :: recs` and whose instruction is `RET`.  Then that RET — the matching one — continues at `ra` with `sp = sp₀ + 1` (frame record,
 arguments and everything the callee pushed are gone; the one result is pushed), `fp` and `pp` as they were at the MARK, and the global
 invariant holds with live records `recs`: in particular `sp = pp + nparams + h(ra)`, the height the verifier recorded behind the call. -/
@@ -624,11 +623,10 @@ theorem verified_marked_call_returns (md : Module) (sm : Summary) (hm : HMap) (h
     intro i' hi'
     rw [hi] at hi'
     cases hi'
-    refine ⟨fun h => ?_, fun h => ?_, fun h => ?_⟩
+    refine ⟨fun h => ?_, fun h => ?_⟩
     · rw [hop] at h; cases h
     · rcases h with h | h <;> (rw [hop] at h; cases h)
-    · rw [hop] at h; cases h
-  have h1 := step_sound hf orc1 vm v1 recs hs hstep1 hok1
+  have h1 := Ver.step_sound hf orc1 vm v1 recs hs hstep1 hok1
   rw [mark_pushes_record md vm recs i hi hop] at h1
   have hs2 : Sound md hm bot v2 ({ F := vm.sp + 5, pp := vm.pp, fp := vm.fp, ra := i.w0 } :: recs) := by
     rcases h1 with h1 | h1 | h1
@@ -648,7 +646,7 @@ theorem verified_marked_call_returns (md : Module) (sm : Summary) (hm : HMap) (h
 
 /-- the global invariant holds of the start machine of `callModule` -/
 example : ∀ sm hm, verifyH callModule = .ok (sm, hm) → Sound callModule hm (-1) (beginExecute callModule (Vm.new 64 32)) [] :=
-  fun sm hm hv => sound_initial (verifyH_ok callModule sm hm hv).2 64 32 0
+  fun sm hm hv => sound_initial (verifyH_ok callModule sm hm hv).2 64 32 0 (by decide)
 
 /-- the certificate's record of the calls in preparation in `callModule`: between the MARK at 0 (height 0) and its CALL at 4 -/
 example : (match verifyH callModule with
@@ -734,7 +732,7 @@ example : (match verifyH slideModule, verifyCore slideModule with
 
 /-- **MK_INIT_ARRAY**: `arrModule` builds `[7, 8, 9]` (elements, the extent `INT 3`, `MK_INIT_ARRAY 1`) in a function called from the
 entry stub.  It verifies, the extents recorded at address 14 are the `INT` run before it, and its whole run meets the side conditions
-(in particular `AllocFresh` at every `INT`, and — re-validated though proved — the extents on the stack are the recorded ones).  With a
+(and, re-validated though proved: every `INT` gets a free cell, the extents on the stack are the recorded ones).  With a
 `LABEL` between the extent and MK_INIT_ARRAY (the extent no longer immediately before) it is rejected. -/
 def arrModule : Module := { callModule with
   code := #[⟨.MARK, 4, 0, 0⟩, ⟨.GLOBAL_VEC, 0, 0, 0⟩, ⟨.ID_FUNC_ADDR, 7, 0, 0⟩, ⟨.CALL, 0, 0, 0⟩, ⟨.HALT, 0, 0, 0⟩,
